@@ -837,8 +837,28 @@ class Executor:
         raise VCError(f'constant {v!r} outside subset')
 
     def ev_JoinedStr(self, st, e, cx, k):
-        # message text only: opaque fresh string (rendering assumed total and effect-free)
-        return k(st, self.fresh(STR, 'fstr'))
+        # an f-string whose pieces are all strings (constants, module constants, string locals, re.escape(..)) is their
+        # concatenation; anything else is message text only: an opaque fresh string (rendering assumed total, effect-free)
+        parts = []
+        try:
+            for v in e.values:
+                if isinstance(v, ast.Constant) and isinstance(v.value, str):
+                    parts.append(z3.StringVal(v.value))
+                elif isinstance(v, ast.FormattedValue) and v.format_spec is None and v.conversion == -1 \
+                        and isinstance(v.value, (ast.Name, ast.Call)) and not cx.spec:
+                    if isinstance(v.value, ast.Call) and ast.unparse(v.value.func) != 're.escape':
+                        raise NotPure()
+                    sv = self.pure(st, v.value, cx)
+                    if sv.ty.kind != 'str':
+                        raise NotPure()
+                    parts.append(sv.z)
+                else:
+                    raise NotPure()
+        except (NotPure, VCError):
+            return k(st, self.fresh(STR, 'fstr'))
+        if not parts:
+            return k(st, SV(STR, z3.StringVal('')))
+        return k(st, SV(STR, z3.Concat(*parts) if len(parts) > 1 else parts[0]))
 
     def ev_Name(self, st, e, cx, k):
         nm = e.id
